@@ -1,5 +1,5 @@
 (* C17 — refutation witnesses, non-vacuity examples and the soundness of the per-run check. *)
-From C17 Require Import Model Spec Steps ChanProofs MutexProofs CounterProofs FlatProofs ObsProofs Explore Corr.
+From C17 Require Import Model Spec Steps ChanProofs MutexProofs CounterProofs FlatProofs ObsProofs Explore Corr ScopeModel ScopeProofs.
 Local Open Scope Z_scope.
 
 (* ---- the per-run check: code 0 really exhibits a schedule of the model ---- *)
@@ -200,4 +200,17 @@ Proof.
     exists s. split; auto. vm_compute in E. inversion E; subst. vm_compute. auto.
   - destruct (run_sched (init ex_midbody) (repeat (0, 0)%nat 9)) as [s|] eqn:E; [| vm_compute in E; discriminate].
     exists s. split; auto. vm_compute in E. inversion E; subst. vm_compute. auto.
+Qed.
+
+(* ---- the per-run replay of scope scenarios stays inside the model and its guard: every state it passes is a
+        state the scope theorems speak about ---- *)
+Lemma exec_code_reach : forall code st i acc st' acc',
+  sreach st -> exec_code st i code acc = Some (st', acc') -> sreach st'.
+Proof.
+  induction code as [|[o|k] code IH]; simpl; intros st i acc st' acc' R H.
+  - inversion H; subst; auto.
+  - destruct (guardb st i o) eqn:G; try discriminate.
+    destruct (sstep st i o) as [st1|] eqn:S; try discriminate.
+    eapply IH; [|eauto]. eapply sr_step; eauto. apply guardb_ok; auto.
+  - destruct (nth_error (stacks st) i) as [[|s0 rest]|]; try discriminate. eapply IH; eauto.
 Qed.
